@@ -7,7 +7,7 @@ From Teleport Require Refuted.C20_refuted.
 Local Open Scope N_scope.
 
 Definition w_header (h extra bloom nonce : N) : header :=
-  {| hd_height := mkH 0 h; hd_extra_len := extra; hd_mix := []; hd_uncle := uncle_hash; hd_diff := [x02];
+  {| hd_height := mkH 0 h; hd_extra_len := extra; hd_mix := []; hd_uncle := uncle_hash; hd_root := []; hd_diff := [x02];
      hd_bloom_len := bloom; hd_nonce_len := nonce; hd_gas_limit := 30000000; hd_gas_used := 1 |}.
 
 Definition w_create (cs : client_state) (k : cons_state) : xprop := PCreate (B "t") 1 (B "chain-a") (AnyVal cs) (AnyVal k).
@@ -15,29 +15,29 @@ Definition w_create (cs : client_state) (k : cons_state) : xprop := PCreate (B "
 (** D4a - BSC client state with Epoch = 0: Validate looked only at the header, Initialize computes
     height % Epoch.  (Fixed by 73e1317.) *)
 Theorem C15_bsc_epoch_zero_refuted :
-  exists p, xprop_validate_old p = Ok tt /\ forall now, handle_xprop_old now false [] p = Panic.
-Proof. exists (w_create (CsBSC (w_header 200 137 256 8) 56 0 1000 true) (ConsBSC 5)). split; [reflexivity | intro; reflexivity]. Qed.
+  exists p, xprop_validate_old p = Ok tt /\ forall now native, handle_xprop_old now false native [] p = Panic.
+Proof. exists (w_create (CsBSC (w_header 200 137 256 8) 56 0 1000 true) (ConsBSC 5)). split; [reflexivity | intros; reflexivity]. Qed.
 
 (** ... and through UpgradeClient on an existing BSC client. *)
 Theorem C15_bsc_epoch_zero_upgrade_refuted :
-  exists s p, xprop_validate_old p = Ok tt /\ forall now, handle_xprop_old now false s p = Panic.
+  exists s p, xprop_validate_old p = Ok tt /\ forall now native, handle_xprop_old now false native s p = Panic.
 Proof.
   exists [(B "chain-a", {| c_client := Some (CsBSC (w_header 200 137 256 8) 56 200 1000 true); c_cons := []; c_signers := [] |})],
          (PUpgrade (B "t") 1 (B "chain-a") (AnyVal (CsBSC (w_header 400 137 256 8) 56 0 1000 true)) (AnyVal (ConsBSC 5))).
-  split; [reflexivity | intro; reflexivity].
+  split; [reflexivity | intros; reflexivity].
 Qed.
 
 (** D4b - ETH client state whose height-0 header has a 257-byte bloom: ValidateBasic converted the header
     only for heights above 0, Initialize always does (BytesToBloom panics).  (Fixed by 4b52eb5.) *)
 Theorem C15_eth_bloom_refuted :
-  exists p, xprop_validate_old p = Ok tt /\ forall now, handle_xprop_old now false [] p = Panic.
-Proof. exists (w_create (CsETH (w_header 0 10 257 0) 1000) (ConsETH 5)). split; [reflexivity | intro; reflexivity]. Qed.
+  exists p, xprop_validate_old p = Ok tt /\ forall now native, handle_xprop_old now false native [] p = Panic.
+Proof. exists (w_create (CsETH (w_header 0 10 257 0) 1000) (ConsETH 5 [])). split; [reflexivity | intros; reflexivity]. Qed.
 
 (** D4d - BSC chain id >= 2^63: big.NewInt(int64(ChainId)) is negative, rlp refuses it and
     encodeSigHeader panics.  (Fixed by d773954.) *)
 Theorem C15_bsc_chain_id_refuted :
-  exists p, xprop_validate_old p = Ok tt /\ forall now, handle_xprop_old now false [] p = Panic.
-Proof. exists (w_create (CsBSC (w_header 200 137 256 8) 9223372036854775808 200 1000 true) (ConsBSC 5)). split; [reflexivity | intro; reflexivity]. Qed.
+  exists p, xprop_validate_old p = Ok tt /\ forall now native, handle_xprop_old now false native [] p = Panic.
+Proof. exists (w_create (CsBSC (w_header 200 137 256 8) 9223372036854775808 200 1000 true) (ConsBSC 5)). split; [reflexivity | intros; reflexivity]. Qed.
 
 (** D4c - BSC header with an over-long bloom / nonce above height 0: the VALIDATION itself panicked
     (ToBscHeader) instead of returning an error.  (Fixed by 3eea1ca; at height 0 such a header was
@@ -49,9 +49,12 @@ Proof. exists (w_create (CsBSC (w_header 200 137 257 8) 56 200 1000 true) (ConsB
 (** The repaired validation rejects every one of these witnesses. *)
 Theorem C15_witnesses_now_rejected :
   xprop_validate (w_create (CsBSC (w_header 200 137 256 8) 56 0 1000 true) (ConsBSC 5)) = Err /\
-  xprop_validate (w_create (CsETH (w_header 0 10 257 0) 1000) (ConsETH 5)) = Err /\
-  (forall now, handle_xprop now false [] (w_create (CsBSC (w_header 200 137 256 8) 9223372036854775808 200 1000 true) (ConsBSC 5)) <> Panic).
-Proof. repeat split; try reflexivity. intro now. cbn. discriminate. Qed.
+  xprop_validate (w_create (CsETH (w_header 0 10 257 0) 1000) (ConsETH 5 [])) = Err /\
+  (forall now native, handle_xprop now false native [] (w_create (CsBSC (w_header 200 137 256 8) 9223372036854775808 200 1000 true) (ConsBSC 5)) <> Panic).
+Proof.
+  repeat split; try reflexivity. intros now native. unfold w_create, handle_xprop, handle_xprop_gen. cbn [negb andb].
+  destruct (bytes_eqb (B "chain-a") native); [discriminate|]. vm_compute. discriminate.
+Qed.
 
 (** D5 - rvesting reward parameters (duplicate / bank-invalid denominations) accepted by the pinned
     validatePerBlockReward made BeginBlocker panic: proved in Refuted/C20_refuted.v, re-exported. *)
@@ -99,7 +102,7 @@ Definition w_gx_signer : gx_genesis :=
 
 Theorem C15_bsc_signer_key_refuted :
   exists g p, gx_validate g = Ok tt /\ gx_init g = Ok tt /\ xprop_validate p = Ok tt /\
-    forall now, handle_xprop now false (gx_state g) p = Panic.
+    forall now native, handle_xprop now false native (gx_state g) p = Panic.
 Proof.
   exists w_gx_signer, (PUpgrade (B "t") 1 (B "bsc-chain") (AnyVal w_bsc) (AnyVal (ConsBSC 5))).
   repeat split; try reflexivity.
@@ -107,7 +110,7 @@ Qed.
 
 (** ... and with the repaired parser the same proposal fails with an ordinary error. *)
 Theorem C15_bsc_signer_key_patched :
-  forall now, handle_xprop now true (gx_state w_gx_signer) (PUpgrade (B "t") 1 (B "bsc-chain") (AnyVal w_bsc) (AnyVal (ConsBSC 5))) = Err.
+  forall now native, handle_xprop now true native (gx_state w_gx_signer) (PUpgrade (B "t") 1 (B "bsc-chain") (AnyVal w_bsc) (AnyVal (ConsBSC 5))) = Err.
 Proof. intro; reflexivity. Qed.
 
 (** OPEN by design (finding rvesting-genesis-unfunded-from): ValidateGenesis cannot see the bank genesis;
